@@ -12,6 +12,9 @@ package interp
 // concurrent map access.
 
 import (
+	"fmt"
+	"reflect"
+	"sort"
 	"go/types"
 )
 
@@ -34,6 +37,76 @@ type hashmap struct {
 	keyType types.Type
 	table   map[int]*entry
 	length  int // number of entries in map
+	order   []hashable // keys in insertion order: iteration must be deterministic for re-execution
+}
+
+func (m *hashmap) dropOrder(k hashable) {
+	for i, o := range m.order {
+		if k.eq(m.keyType, o) {
+			m.order = append(m.order[:i:i], m.order[i+1:]...)
+			return
+		}
+	}
+}
+
+// orderedEntries returns the entries in insertion order.
+func (m *hashmap) orderedEntries() []*entry {
+	if m == nil {
+		return nil
+	}
+	var res []*entry
+	for _, k := range m.order {
+		hash := k.hash(m.keyType)
+		for e := m.table[hash]; e != nil; e = e.next {
+			if k.eq(m.keyType, e.key) {
+				res = append(res, e)
+				break
+			}
+		}
+	}
+	return res
+}
+
+// builtin maps (map[value]value) keep their insertion order in a side table keyed by map identity
+var mapOrder = map[uintptr][]value{}
+
+func mapID(m map[value]value) uintptr { return reflect.ValueOf(m).Pointer() }
+
+func mapSet(m map[value]value, k, v value) {
+	if _, ok := m[k]; !ok {
+		id := mapID(m)
+		mapOrder[id] = append(mapOrder[id], k)
+	}
+	m[k] = v
+}
+
+func mapDelete(m map[value]value, k value) {
+	if _, ok := m[k]; !ok {
+		return
+	}
+	delete(m, k)
+	id := mapID(m)
+	o := mapOrder[id]
+	for i := range o {
+		if o[i] == k {
+			mapOrder[id] = append(o[:i:i], o[i+1:]...)
+			return
+		}
+	}
+}
+
+func mapKeys(m map[value]value) []value {
+	o := mapOrder[mapID(m)]
+	if len(o) != len(m) {
+		// a map filled by engine code rather than MapUpdate: fall back to a sorted order
+		var ks []value
+		for k := range m {
+			ks = append(ks, k)
+		}
+		sort.Slice(ks, func(i, j int) bool { return fmt.Sprintf("%T%v", ks[i], ks[i]) < fmt.Sprintf("%T%v", ks[j], ks[j]) })
+		return ks
+	}
+	return append([]value(nil), o...)
 }
 
 // makeMap returns an empty initialized map of key type kt,
@@ -54,6 +127,7 @@ func (m *hashmap) delete(k hashable) {
 			if k.eq(m.keyType, head.key) {
 				m.table[hash] = head.next
 				m.length--
+				m.dropOrder(k)
 				return
 			}
 			prev := head
@@ -61,6 +135,7 @@ func (m *hashmap) delete(k hashable) {
 				if k.eq(m.keyType, e.key) {
 					prev.next = e.next
 					m.length--
+					m.dropOrder(k)
 					return
 				}
 				prev = e
@@ -75,17 +150,15 @@ func (m *hashmap) lookup(k hashable) value {
 	if m != nil && m.length > 0 {
 		if containsSym(k) {
 			// symbolic key: linear scan with symbolic equality (insertion order is irrelevant for lookup)
-			for _, head := range m.table {
-				for e := head; e != nil; e = e.next {
-					switch r := equalsV(m.keyType, k, e.key).(type) {
-					case bool:
-						if r {
-							return e.value
-						}
-					case sym:
-						if ex.branch(r.t) {
-							return e.value
-						}
+			for _, e := range m.orderedEntries() {
+				switch r := equalsV(m.keyType, k, e.key).(type) {
+				case bool:
+					if r {
+						return e.value
+					}
+				case sym:
+					if ex.branch(r.t) {
+						return e.value
 					}
 				}
 			}
@@ -120,6 +193,7 @@ func (m *hashmap) insert(k hashable, v value) {
 		next:  head,
 	}
 	m.length++
+	m.order = append(m.order, k)
 }
 
 // len returns the number of key/value associations in the map.
